@@ -40,6 +40,12 @@ func fnBitCount(ctx *cmdContext, args map[string]any) (output respValue, err err
 		length *= 8
 	}
 
+	// same order of adjustments as Redis' bitcountCommand
+	if start < 0 && end < 0 && start > end {
+		output.data = respInt(0)
+		return
+	}
+
 	// right side indexing
 	if start < 0 {
 		start = length + start
@@ -51,15 +57,17 @@ func fnBitCount(ctx *cmdContext, args map[string]any) (output respValue, err err
 	// bounds checking
 	if start < 0 {
 		start = 0
-	} else if start >= length {
-		start = length - 1
 	}
-
-	if end < start {
+	if end < 0 {
+		end = 0
+	}
+	if end >= length {
+		end = length - 1
+	}
+	if start > end {
+		// includes the empty string and a start beyond the end
 		output.data = respInt(0)
 		return
-	} else if end >= length {
-		end = length - 1
 	}
 
 	if bitMode {
